@@ -554,13 +554,33 @@ def gen_namespace(rng, nsname, thorough, deps, want_blocks=True, main=True, gobj
             dump[fn] = '<interface name="%s%s" get-type="%s">%s%s<prerequisite name="GObject"/></interface>' % (P, ifc, fn, props, sigs)
             if want_blocks and rng.random() < 0.5:
                 block(['%s%s:' % (P, ifc), '', 'An interface.'], f_typedefs)
+        # GObject types of the dependencies (direct or nested): a class here may derive from one,
+        # implement its interfaces, and have properties of its types
+        dep_classes, dep_ifaces = [], []
+
+        def collect(dl):
+            for d in dl:
+                for c in d.get('_classes', []):
+                    if d['ns'] + c not in dep_classes:
+                        dep_classes.append(d['ns'] + c)
+                for c in d.get('_ifaces', []):
+                    if d['ns'] + c not in dep_ifaces:
+                        dep_ifaces.append(d['ns'] + c)
+                collect(d.get('deps', []))
+        collect(deps)
         prev = None
+        chain_of = {}
         for cl in classes:
             sc = snake(cl)
             D({'k': 'typedef_struct_fwd', 'name': P + cl, 'tag': '_' + P + cl}, f_typedefs)
             D({'k': 'typedef_struct_fwd', 'name': P + cl + 'Class', 'tag': '_' + P + cl + 'Class'}, f_typedefs)
-            parent_inst = ['named', P + prev] if prev else GOBJ
-            parent_cls = ['named', P + prev + 'Class'] if prev else GOBJCLASS
+            base = rng.choice(dep_classes) if (dep_classes and not prev and rng.random() < 0.6) else None
+            parent_inst = ['named', P + prev] if prev else (['named', base] if base else GOBJ)
+            parent_cls = ['named', P + prev + 'Class'] if prev else (['named', base + 'Class'] if base else GOBJCLASS)
+            chain_of[cl] = ([P + prev] + chain_of[prev]) if prev else (([base] if base else []) + ['GObject'])
+            if rng.random() < 0.2:
+                # an intermediate type that no header describes: the nearest known ancestor becomes the parent
+                chain_of[cl] = [P + 'Hidden' + cl + 'Base'] + chain_of[cl]
             D({'k': 'struct_def', 'tag': '_' + P + cl, 'members': [
                 {'name': 'parent_instance', 'type': parent_inst},
                 {'name': 'priv_%s' % sc, 'type': GPOINTER, 'private': rng.random() < 0.7}]}, f_structs, 3)
@@ -685,7 +705,10 @@ def gen_namespace(rng, nsname, thorough, deps, want_blocks=True, main=True, gobj
                     block(tl + ['', 'Emitted sometimes.'] + (['', 'Returns: %sTRUE to stop' % rng.choice(['', '(skip): '])]
                                                               if rng.random() < 0.3 else []), f_typedefs)
             impl = ''.join('<implements name="%s%s"/>' % (P, i) for i in sorted(ifaces, reverse=True) if rng.random() < 0.7)
-            parents = (P + prev + ',GObject') if prev else 'GObject'
+            impl += ''.join('<implements name="%s"/>' % i for i in dep_ifaces if rng.random() < 0.5)
+            if dep_classes and rng.random() < 0.5:
+                props += '<property name="peer" type="%s" flags="3"/>' % rng.choice(dep_classes)
+            parents = ','.join(chain_of[cl])
             dump[fn] = '<class name="%s%s" get-type="%s" parents="%s"%s>%s%s%s</class>' % (
                 P, cl, fn, parents, ' abstract="1"' if rng.random() < 0.2 else '', impl, props, sigs)
             if want_blocks and rng.random() < 0.6:
@@ -814,6 +837,8 @@ def gen_namespace(rng, nsname, thorough, deps, want_blocks=True, main=True, gobj
            'includes': ['%s-%s' % (d['ns'], d['version']) for d in deps],
            'options': [], 'file_order': files, 'order_before': order_before, 'decls': decls,
            'comments': comments, 'deps': deps, '_records': records, '_foreign_types': foreign}
+    if gobject:
+        job['_classes'], job['_ifaces'] = classes, ifaces
     if main and rng.random() < 0.2:
         # two symbol prefixes of which one extends the other (gtk / gtk_x style): for a symbol both
         # match, the one named first on the command line wins - whichever that is, on every run
@@ -865,7 +890,8 @@ def gen_job(rng, thorough):
     a = b = c = None
     deps = []
     if shape != 'none':
-        a = gen_namespace(rng, 'Dpa', False, [], want_blocks=rng.random() < 0.5, main=False, crayon=rng.random() < 0.35)
+        a = gen_namespace(rng, 'Dpa', False, [], want_blocks=rng.random() < 0.5, main=False, crayon=rng.random() < 0.35,
+                          gobject=rng.random() < 0.35)
     if shape == 'one':
         deps = [a]
     elif shape == 'chain':
